@@ -178,6 +178,9 @@ func (c *Cache) refresh() error {
 
 	_ = scanSpecDirs(c.specDirs, func(path string, priority int, spec *Spec, err error) error {
 		path = filepath.Clean(path)
+		if c.unwatchedDir(filepath.Dir(path)) {
+			return nil
+		}
 		if err != nil {
 			collectError(fmt.Errorf("failed to load CDI Spec %w", err), path)
 			return nil
@@ -214,6 +217,18 @@ func (c *Cache) refresh() error {
 		errs = append(errs, errors.Join(specErrs...))
 	}
 	return errors.Join(errs...)
+}
+
+// unwatchedDir tells if dir is a Spec directory which did not exist when
+// we last tried to watch it. If it has appeared since then, we are not
+// watching it yet, so we would never notice its content changing or the
+// directory going away again. Therefore we leave it out of a scan. It is
+// picked up by the refresh that follows once we manage to watch it.
+func (c *Cache) unwatchedDir(dir string) bool {
+	if !c.autoRefresh || c.watch.watcher == nil {
+		return false
+	}
+	return errors.Is(c.dirErrors[dir], fs.ErrNotExist)
 }
 
 // RefreshIfRequired triggers a refresh if necessary.
